@@ -125,4 +125,4 @@ if __name__ == '__main__':
                      'raising, the session stays usable (MySQL deadlock '
                      'victim); faults inside commit and connection loss '
                      'between retries are outside the claim'],
-        quick_budget=170, thorough_budget=1700))
+        quick_budget=420, thorough_budget=2400))
